@@ -88,6 +88,7 @@ static Outcome execute(const Scenario *sc, const Plan &p, bool verbose = false) 
   alloc_reset_run();
   g_rand_stream = nullptr; g_arch_cap = -1;
   alarm(getenv("OPSIM_WATCHDOG") ? atoi(getenv("OPSIM_WATCHDOG")) : 60);
+  g_in_run = true; g_ctx = "";
   try {
     sc->exec(p, o.run);
     o.status = "ok";
@@ -98,7 +99,10 @@ static Outcome execute(const Scenario *sc, const Plan &p, bool verbose = false) 
     // class: assertion site (file:line), stable across data
     std::string w = f.where; size_t sp = w.find(' ');
     o.cls = "assert@" + w.substr(0, sp); o.detail = w;
+    if (w.rfind("abort ", 0) == 0) { o.cls = "abort@" + w.substr(6); o.detail = "abort() inside the library (a SILK assertion prints its site to stderr) while: " + w.substr(6); }
+    if (known_finding(p.prop, o.cls)) { o.run.known_hits.push_back(o.cls); o.status = "ok"; o.cls.clear(); o.detail.clear(); }
   }
+  g_in_run = false;
   alarm(0);
   alloc_reset_run();
   g_rand_stream = nullptr; g_arch_cap = -1;
